@@ -162,6 +162,8 @@ Definition obs_step (cs : amap pconf) (o : obs) (te : tid * event) : obs :=
                                 <| w_commit := w_commit o || (cancel && o_commit (oi_get o i)) |> <| o_stopstage := set th true (o_stopstage o) |> <| o_stopinst := set th (Some i) (o_stopinst o) |>)
     | EStopRunning i, _ => o <| o_stopstage := set th false (o_stopstage o) |> <| o_stopinst := set th None (o_stopinst o) |>
     | EStopPending i, _ =>
+        (* a stop that finds the instance Pending ends it, whether it is an external or an internal stop *)
+        oi_upd i (fun x => x <| o_stopreq := true |>)
         (o <| o_stopstage := set th false (o_stopstage o) |> <| o_stopinst := set th None (o_stopinst o) |> <| w_commit := w_commit o || o_commit (oi_get o i) |>)
     | EStopReturn i, _ =>
         let direct := match get th (o_stopstage o) with Some true => true | _ => false end in
